@@ -115,6 +115,7 @@ HEAP_SPECIAL = {
     '$set': z3.ArraySort(I, ValSet), '$pset': z3.ArraySort(I, PathSet),
     '$path': z3.ArraySort(I, PathSort),     # for objects that store a path (rare)
     '$ypath': z3.ArraySort(I, z3.ArraySort(I, PathSort)),   # ghost: paths yielded by a generator, by position
+    '$lpos': z3.ArraySort(I, z3.ArraySort(Val, I)),         # ghost: position at which a value was (last) appended to a list
     '$ypos': z3.ArraySort(I, z3.ArraySort(I, I)),           # ghost: position at which an object was (last) yielded, by object identity
 }
 
